@@ -331,9 +331,20 @@ def truncation_guard(F, R, defs):
                      F.loc(g, c.get("line")))
                 continue
             before = [e for e in seq[:i] if e[0] == "guard" and e[1] == ev[1]]
-            R.ob("make-call-guarded", "%s: make(%s)" % (p, ev[1]), bool(before),
-                 "a range check on the same (op, operands) precedes the call" if before else
-                 "no range check on (%s) before make()" % ev[1], F.loc(g, c.get("line")))
+            # ... and on every path: in the MIR of the caller no path from the entry reaches the make() call without
+            # passing a call of the range check (a check made only "when the first operand is large" leaves the others)
+            dom_ok, dom_det = True, ""
+            if before and g.get("mir"):
+                Bm = M.Body(g)
+                gb = M.call_blocks(Bm, lambda t: t.get("callee") in guards)
+                mb = M.call_blocks(Bm, lambda t: t.get("callee") == "code::definitions::make")
+                free = M.reachable_avoiding(Bm, 0, gb, through_start=False)
+                bad = sorted(b_ for b_ in mb if b_ in free)
+                if bad:
+                    dom_ok, dom_det = False, " — but make() is reachable without the check (bb%s): the check is conditional" % bad[:3]
+            R.ob("make-call-guarded", "%s: make(%s)" % (p, ev[1]), bool(before) and dom_ok,
+                 ("a range check on the same (op, operands) precedes the call" if before else
+                  "no range check on (%s) before make()" % ev[1]) + dom_det, F.loc(g, c.get("line")))
     R.floor("make() call sites outside tests", n, 3)
     # 4. compile() returns Err when the recorded field is set; every Ok leaf is behind that test
     cp = F.fn("compiler::Compiler::compile")
